@@ -148,7 +148,7 @@ Proof.
   destruct (detect_j_cases _ _ _ _ _ _ _ _ Hwf Hd Hn) as [H|(body' & p' & Hnot & Hn')]; [now left|].
   destruct (notify_sn_step _ _ _ _ _ _ _ Hnot) as [[-> ->]|(s & n & Hs & Hs' & Hw)].
   - left. now split.
-  - right. destruct (notify_frame _ _ _ _ _ _ _ Hnot) as (Hi & Hk & Hc & _). exists p', s, n. tauto.
+  - right. destruct (notify_frame _ _ _ _ _ _ _ Hnot) as (Hi & Hk & Hc & _ & _). exists p', s, n. tauto.
 Qed.
 
 Lemma detect_none_j w c f c' o cl j :
@@ -325,7 +325,7 @@ Proof. intros Hle n' pt' H _. apply aopen_seal in H. lia. Qed.
 (* ---- observation outside the property's quantifier ------------------------
    The stored state number is also overwritten by plain (type 0x06, unauthenticated)
    advertisements.  After such a roll-back an old broadcast is accepted again. *)
-Definition obs_p : pairing := mkP [1;2;3;4;5;6] (Some 7) (Some 10) (Some 10) [(11, FU8)].
+Definition obs_p : pairing := mkP [1;2;3;4;5;6] (Some 7) (Some 10) (Some 10) [(11, FU8)] true.
 Definition obs_note : payload := PSeal 7 11 [1;2;3;4;5;6] [11;0;11;0;42;0;0;0;0;0;0;0].
 Definition obs_frame : frame := ([17;54;1;2;3;4;5;6], obs_note).
 
